@@ -35,6 +35,7 @@ type outcome struct {
 	runtime bool   // the panic was a Go runtime.Error
 	n       int    // rows returned (where form)
 	x       string // packed value of the extend column
+	xs      []string
 	strat   string
 }
 
@@ -153,6 +154,7 @@ func (d *dbT) query(text string, xcol string) outcome {
 			o.n++
 			if xcol != "" {
 				o.x = row.GetRawVal(hdr, xcol, d.th, nil)
+				o.xs = append(o.xs, o.x)
 			}
 			if o.n > 3 {
 				panic("qexpr: more rows than stored")
@@ -337,12 +339,13 @@ func countRaw(e ast.Expr, parentRaw bool, ri *rawInfo) {
 
 // exprFns holds the compiled subtrees of one expression.
 type exprFns struct {
+	alts   map[*node]langFn // subtraction written as addition of the negation
 	fns    map[*node]langFn
 	folded map[*node]bool // the folder reduces the subtree to a constant
 }
 
 func newExprFns() *exprFns {
-	return &exprFns{fns: map[*node]langFn{}, folded: map[*node]bool{}}
+	return &exprFns{fns: map[*node]langFn{}, folded: map[*node]bool{}, alts: map[*node]langFn{}}
 }
 
 func (x *exprFns) fn(n *node) langFn {
@@ -393,6 +396,26 @@ func (w *walkT) merge(o *walkT) {
 	w.divFirst = w.divFirst || o.divFirst
 	w.negPrefix = w.negPrefix || o.negPrefix
 	w.bitShort = w.bitShort || o.bitShort
+}
+
+// subAsAddDiffers: the language itself gives another result (value, integer
+// vs decimal representation, or raise) for n when every `x - y` in it is
+// written `x + (-y)`, which is what the query evaluator computes.
+func (w *walkT) subAsAddDiffers(n *node) bool {
+	if !n.hasSubtraction() {
+		return false
+	}
+	alt, ok := w.fns.alts[n]
+	if !ok {
+		alt = compileFn("a,b,c", n.altString())
+		w.fns.alts[n] = alt
+	}
+	r1 := w.fns.fn(n).call(w.args...)
+	r2 := alt.call(w.args...)
+	if r1.raised || r2.raised {
+		return r1.raised != r2.raised
+	}
+	return !sameValue(r1.v, r2.v)
 }
 
 // compiled: the value of the subtree as compiled code gives it.
@@ -590,9 +613,9 @@ func (w *walkT) eval(n *node) (core.Value, bool) {
 		}
 		return w.eval(n.kids[2])
 	}
-	kids, signs := n.kids, n.signs
-	if n.op == "&" || n.op == "|" || n.op == "chain+" {
-		kids, signs = n.flat() // the folder flattens nested chains of the same operator
+	kids := n.kids
+	if n.op == "&" || n.op == "|" {
+		kids, _ = n.flat() // the folder flattens nested chains of the same operator
 	}
 	vals := make([]core.Value, len(kids))
 	failed := false
@@ -634,26 +657,6 @@ func (w *walkT) eval(n *node) (core.Value, bool) {
 		for _, y := range vals[1:] {
 			w.pair("is", vals[0], y)
 		}
-	case "chain+":
-		if strings.Contains(signs, "-") {
-			// what the query evaluator computes: x + (-y)
-			var alt strings.Builder
-			alt.WriteString("x0")
-			for i := 1; i < len(vals); i++ {
-				if signs[i-1] == '-' {
-					fmt.Fprintf(&alt, " + (-x%d)", i)
-				} else {
-					fmt.Fprintf(&alt, " + x%d", i)
-				}
-			}
-			v1, ok1 := callTemplate(strings.ReplaceAll(alt.String(), " + (-", " - ("), vals...)
-			v2, ok2 := callTemplate(alt.String(), vals...)
-			// (also another number representation: it decides between exact
-			// integer and 16 digit decimal arithmetic further up)
-			if ok1 != ok2 || (ok1 && (!sameValue(v1, v2) || isDnum(v1) != isDnum(v2))) {
-				w.subAsAdd = true
-			}
-		}
 	case "chain*":
 		if strings.Contains(n.signs, "/") && divisorFirst(n) {
 			w.divFirst = true
@@ -673,22 +676,35 @@ func (w *walkT) eval(n *node) (core.Value, bool) {
 // predicates of known findings that are decided on the expression
 
 // constPoolMerge: known finding compiler-constant-pool-lossy-merge - the
-// compiled language function replaces a later constant by an earlier one that
-// it Equals although they are different values.
-func constPoolMerge(e *node) bool {
-	var consts []*val
-	found := false
-	e.walk(func(n *node) {
-		if n.op != "const" || found {
-			return
+// compiled language function replaces a constant by another one of its
+// constant table that it Equals although they are different values. Decided on
+// the folded expression (folding produces new constants).
+func constPoolMerge(src string) (found bool) {
+	defer func() {
+		if e := recover(); e != nil {
+			found = false
 		}
-		for _, c := range consts {
-			if c.packed != n.c.packed && n.c.cv.Type() == c.cv.Type() && n.c.cv.Equal(c.cv) {
-				found = true
+	}()
+	var consts []core.Value
+	var visit func(e ast.Node) ast.Node
+	visit = func(e ast.Node) ast.Node {
+		if c, ok := e.(*ast.Constant); ok {
+			if pv, ok := c.Val.(core.Packable); ok {
+				p := core.Pack(pv)
+				for _, o := range consts {
+					if core.Pack(o.(core.Packable)) != p && o.Type() == c.Val.Type() &&
+						(c.Val.Equal(o) || o.Equal(c.Val)) {
+						found = true
+					}
+				}
+				consts = append(consts, c.Val)
 			}
+			return e
 		}
-		consts = append(consts, n.c)
-	})
+		e.Children(visit)
+		return e
+	}
+	visit(qry.NewQueryParser(src, nil, nil).Expression())
 	return found
 }
 
@@ -831,4 +847,117 @@ func emptyRangeAlt(alt ast.Expr) bool {
 		}
 	}
 	return false
+}
+
+// emptyPointDup: known finding composite-index-empty-point-duplicates,
+// decided on the folded expression: a point/in restriction of b by constants
+// and a restriction of c made of the "" point plus something else.
+func emptyPointDup(src string) (r bool) {
+	defer func() {
+		if e := recover(); e != nil {
+			r = false
+		}
+	}()
+	p := qry.NewQueryParser(src, nil, nil)
+	p.EqToIs = true
+	expr := unparen(p.Expression())
+	terms := []ast.Expr{expr}
+	if n, ok := expr.(*ast.Nary); ok && n.Tok == tok.And {
+		terms = n.Exprs
+	}
+	isCol := func(e ast.Expr, col string) bool {
+		id, ok := e.(*ast.Ident)
+		return ok && id.Name == col
+	}
+	isEmptyConst := func(e ast.Expr) bool {
+		p, ok := constPacked(e)
+		return ok && p == ""
+	}
+	// withEmpty: a selection on c that includes the "" point; more: it includes something else too
+	var onC func(e ast.Expr) (isOnC, withEmpty, more bool)
+	onC = func(e ast.Expr) (bool, bool, bool) {
+		switch t := unparen(e).(type) {
+		case *ast.Call:
+			if fn, ok := t.Fn.(*ast.Ident); ok && len(t.Args) == 1 && isCol(t.Args[0].E, "c") {
+				return true, fn.Name == "String?", true
+			}
+		case *ast.In:
+			if !isCol(t.E, "c") {
+				return false, false, false
+			}
+			empty, other := false, false
+			for _, x := range t.Exprs {
+				if _, ok := constPacked(x); !ok {
+					return false, false, false
+				}
+				if isEmptyConst(x) {
+					empty = true
+				} else {
+					other = true
+				}
+			}
+			return true, empty, other
+		case *ast.Binary:
+			if !isCol(t.Lhs, "c") {
+				return false, false, false
+			}
+			if _, ok := constPacked(t.Rhs); !ok {
+				return false, false, false
+			}
+			switch t.Tok {
+			case tok.Is:
+				return true, isEmptyConst(t.Rhs), !isEmptyConst(t.Rhs)
+			case tok.Lt:
+				return true, !isEmptyConst(t.Rhs), true
+			case tok.Lte:
+				return true, true, !isEmptyConst(t.Rhs)
+			case tok.Isnt:
+				return true, !isEmptyConst(t.Rhs), true
+			case tok.Gt, tok.Gte:
+				return true, t.Tok == tok.Gte && isEmptyConst(t.Rhs), true
+			}
+		case *ast.InRange:
+			if isCol(t.E, "c") {
+				return true, t.OrgTok == tok.Gte && isEmptyConst(t.Org), true
+			}
+		case *ast.Nary:
+			if t.Tok != tok.Or {
+				return false, false, false
+			}
+			empty, n := false, 0
+			for _, alt := range t.Exprs {
+				ok, e, _ := onC(alt)
+				if !ok {
+					return false, false, false
+				}
+				empty = empty || e
+				n++
+			}
+			return true, empty, n > 1
+		}
+		return false, false, false
+	}
+	bPoint, cEmptyPlus := false, false
+	for _, tm := range terms {
+		switch t := unparen(tm).(type) {
+		case *ast.Binary:
+			if _, ok := constPacked(t.Rhs); ok && t.Tok == tok.Is && isCol(t.Lhs, "b") {
+				bPoint = true
+			}
+		case *ast.In:
+			if isCol(t.E, "b") {
+				all := true
+				for _, x := range t.Exprs {
+					if _, ok := constPacked(x); !ok {
+						all = false
+					}
+				}
+				bPoint = bPoint || all
+			}
+		}
+		if ok, empty, more := onC(tm); ok && empty && more {
+			cEmptyPlus = true
+		}
+	}
+	return bPoint && cEmptyPlus
 }
